@@ -252,15 +252,12 @@ Proof.
   split; [vm_compute; reflexivity|]. split; [vm_compute; reflexivity | discriminate].
 Qed.
 
-(** an error raised while the context is built names no file although every input has a path *)
-Theorem ctx_error_unattributed_refuted :
-  exists (source : list input) m,
-    Forall (fun sp : input => snd sp <> None) source /\
-    m2p toy ord_id false source ["src"] = Err [EStage SCtx None m].
-Proof.
-  exists [("cFx", Some ["src"; "a.mamba"]); ("?__", Some ["src"; "b.mamba"])], "bad declaration".
-  split; [repeat constructor; discriminate | reflexivity].
-Qed.
+(** since 2d1bc77 an error raised while the context is built names the file whose declarations are
+    rejected (here b.mamba) *)
+Example ctx_error_attributed :
+  m2p toy ord_id false [("cFx", Some ["src"; "a.mamba"]); ("?__", Some ["src"; "b.mamba"]); ("uF_", Some ["src"; "u.mamba"])] ["src"]
+  = Err [EStage SCtx (Some ["src"; "b.mamba"]) "bad declaration"].
+Proof. vm_compute. reflexivity. Qed.
 
 (** a failing write in the middle of the loop leaves the files written before it: an error result
     with Python on disk (here x.mamba and x.py/y.mamba: the second needs a directory where the first
@@ -277,6 +274,13 @@ Proof.
   exists fs_conflict. eexists. exists [EIo IoMkdirs (Some ["target"; "x.py"])], ["target"; "x.py"], "CA".
   split; [vm_compute; reflexivity | split; reflexivity].
 Qed.
+
+(** a directory named like a source is skipped (c8709a7) *)
+Example dir_named_mamba_skipped :
+  tdir toy ord_id [ (["src"], Dir); (["src"; "x.mamba"], File "cAx"); (["src"; "d.mamba"], Dir) ] [] None None false =
+  ([ (["src"], Dir); (["src"; "x.mamba"], File "cAx"); (["src"; "d.mamba"], Dir); (["target"], Dir);
+     (["target"; "x.py"], File "CA") ], Ok ["target"]).
+Proof. vm_compute. reflexivity. Qed.
 
 (** [.mamba] and [.mamba.mamba] are two sources with ONE output path: the run succeeds and the
     second output silently replaces the first *)
